@@ -89,7 +89,7 @@ impl PieceSolver {
     
         let found = if is_rejected {
             false
-        } else if piece.files.len() == 1 {
+        } else if piece.files.len() == 1 && !piece.files[0].metadata.is_padding_file {
             single::scan(piece, &mut self.match_result)?
         } else {
             multiple::scan(piece, &mut self.match_result)?
